@@ -136,6 +136,9 @@ impl Property for C05 {
             "guards whose variable is also bound outside the clause are excluded and counted (known finding C05-F1)".into(),
         ]
     }
+    fn fuzz(&self) -> Option<crate::FuzzSpec> {
+        Some(crate::FuzzSpec { label: "c05-ws", max_len: 700, runs: 20000 })
+    }
     fn run(&self, ctx: &mut Ctx) {
         let cases = ctx.tier.pick(12_000, 300_000);
         ctx.run_streams("c05-ws", cases, 700, |ctx, bytes| {
